@@ -11,10 +11,12 @@ import struct
 from . import netsynth as ns, outparse, quicsynth, refkdf, suites, tcpcap, tlssynth
 
 
-def _conversation(v6=False, gap=False, bad_csum=False, no_handshake=False, bad_ack=False):
+def _conversation(v6=False, gap=False, bad_csum=False, no_handshake=False, bad_ack=False, second_handshake=False):
     ep = tcpcap.default_ep(1, v6)
     segs = []
     if not no_handshake:
+        segs += [tcpcap.Seg("c", 0, 0, 0x02, b""), tcpcap.Seg("s", 0, 1, 0x12, b""), tcpcap.Seg("c", 1, 1, 0x10, b"")]
+    if second_handshake:
         segs += [tcpcap.Seg("c", 0, 0, 0x02, b""), tcpcap.Seg("s", 0, 1, 0x12, b""), tcpcap.Seg("c", 1, 1, 0x10, b"")]
     segs += [tcpcap.Seg("c", 1, 1, 0x18, b"hello"), tcpcap.Seg("s", 1, 6 if not bad_ack else 7, 0x10, b""),
              tcpcap.Seg("s", 1, 6, 0x18, b"world!"), tcpcap.Seg("c", 6 + (1 if gap else 0), 7, 0x18, b"more")]
@@ -36,6 +38,7 @@ def output_oracle():
         "wrong TCP checksum": _conversation(bad_csum=True)[0],
         "data before SYN": _conversation(no_handshake=True)[0],
         "inconsistent ack": _conversation(bad_ack=True)[0],
+        "handshake repeated inside a conversation": _conversation(second_handshake=True)[0],
         "truncated block": good[:-7],
         "bad trailing length": good[:-4] + struct.pack("<I", 12),
         "1-byte frame": ns.pcapng([("pkt", 0, b"\x00")]),
